@@ -1253,3 +1253,102 @@ func isZeroValue(v ssa.Value) bool {
 	}
 	return false
 }
+
+func init() {
+	register("ASG-4", "the data context stores and finds a fact under exactly the key it is given", 3, ruleASG4)
+}
+
+// ASG-4: top-level variables are read with Get(name) and written with Add(name, value) (Variable.Evaluate / Assign).
+func ruleASG4(c *Ctx) {
+	p := c.P
+	storeF := p.Field("ast", "DataContext", "ObjectStore")
+	for _, mn := range []string{"Add", "AddJSON"} {
+		m := p.Method("ast", "DataContext", mn)
+		if m == nil || len(m.Params) < 3 {
+			c.AnchorLost("(*ast.DataContext)." + mn)
+			continue
+		}
+		recv, key, val := ssa.Value(m.Params[0]), ssa.Value(m.Params[1]), ssa.Value(m.Params[2])
+		n, okKey, okVal, okMap := 0, true, true, true
+		for _, b := range m.Blocks {
+			for _, in := range b.Instrs {
+				mu, ok := in.(*ssa.MapUpdate)
+				if !ok {
+					continue
+				}
+				n++
+				if f, base := fieldLoad(mu.Map); f != storeF || base != recv {
+					okMap = false
+				}
+				if unspill(mu.Key) != key {
+					okKey = false
+				}
+				// the stored node wraps the object that was passed in
+				fromVal := false
+				var walk func(v ssa.Value, d int)
+				walk = func(v ssa.Value, d int) {
+					if v == nil || d > 8 || fromVal {
+						return
+					}
+					v = unspill(v)
+					if v == val {
+						fromVal = true
+						return
+					}
+					switch x := v.(type) {
+					case *ssa.Call:
+						for _, a := range x.Call.Args {
+							walk(a, d+1)
+						}
+					case *ssa.Extract:
+						walk(x.Tuple, d+1)
+					case *ssa.MakeInterface:
+						walk(x.X, d+1)
+					case *ssa.Convert:
+						walk(x.X, d+1)
+					case *ssa.ChangeType:
+						walk(x.X, d+1)
+					case *ssa.Phi:
+						for _, e := range x.Edges {
+							walk(e, d+1)
+						}
+					}
+				}
+				walk(mu.Value, 0)
+				if !fromVal {
+					okVal = false
+				}
+			}
+		}
+		c.Check(n >= 1 && okKey && okVal && okMap, "DataContext."+mn+" / ObjectStore[key] = node(obj)", p.Pos(m.Pos()), "keyed by the key parameter, value built from the object parameter", fmt.Sprintf("the fact is not stored in the context's own ObjectStore under exactly the given key with a node of exactly the given object (stores=%d ownMap=%v key=%v value=%v): a top-level assignment would write somewhere a later read does not look", n, okMap, okKey, okVal))
+	}
+	if m := p.Method("ast", "DataContext", "Get"); m == nil || len(m.Params) < 2 {
+		c.AnchorLost("(*ast.DataContext).Get")
+	} else {
+		recv, key := ssa.Value(m.Params[0]), ssa.Value(m.Params[1])
+		n, ok := 0, true
+		for _, b := range m.Blocks {
+			for _, in := range b.Instrs {
+				lk, isL := in.(*ssa.Lookup)
+				if !isL {
+					continue
+				}
+				n++
+				if f, base := fieldLoad(lk.X); f != storeF || base != recv || unspill(lk.Index) != key {
+					ok = false
+				}
+			}
+		}
+		okRet := true
+		for _, ret := range returnsOf(m) {
+			if len(ret.Results) != 1 || isNilConst(ret.Results[0]) {
+				continue
+			}
+			isLookup := derivesFrom(ret.Results[0], func(v ssa.Value) bool { _, isL := v.(*ssa.Lookup); return isL })
+			if !isLookup {
+				okRet = false
+			}
+		}
+		c.Check(n >= 1 && ok && okRet, "DataContext.Get / returns ObjectStore[key]", p.Pos(m.Pos()), "lookup keyed by the key parameter", "Get does not return what is stored in the context's own ObjectStore under exactly the given key")
+	}
+}
